@@ -11,6 +11,10 @@ func c04Run1(banned bool, permanent bool) *c04Run {
 	// an account table with at most one account whose login and password are arbitrary short byte strings
 	r.acct = &vAcctStub{exists: vBool("account_exists")}
 	accLogin := string(vBytesEach("acct.login", 2))
+	if vBool("the_account_is_guest") {
+		// the login an empty login field stands for; it may well have a password set
+		accLogin = "guest"
+	}
 	accPw := vBytesEach("acct.pw", 2)
 	r.acctPw = accPw
 	r.acct.account = Account{Login: accLogin, Name: "n", Password: HashAndSalt(accPw)}
